@@ -69,7 +69,10 @@ class DefRecorder:
         out, ret = 'ok', {'k': 'none'}
         try:
             if op == 'setitem':
-                d[c['o'], c['p']] = c['v']
+                # the value is taken by truthiness: rotate through several truthy / falsy objects
+                self._tv = getattr(self, '_tv', 0) + 1
+                val = ((True, 1, 'X', [0], 2.5) if c['v'] else (False, 0, '', None, []))[self._tv % 5]
+                d[c['o'], c['p']] = val
                 r = None
             elif op in ('add_object', 'set_object'):
                 r = getattr(d, op)(c['o'], list(c['names']))
